@@ -269,7 +269,7 @@ UPDATE_RULE = (
 )
 PROPS["C10"] = {"rule": UPDATE_RULE, "trusted_base": UPDATE_TB, "assumptions": [
     "the Lean model is tied to the Rust code by differential execution, not by translation",
-    "that the updated document is tokenized back into tokens with the same texts (hypothesis AllSame of C10_idempotent_partial) and that it parses to the same commands are decided by the direct oracles on the generated cases, not proved",
+    "C10_idempotent / C10_same_commands hold under decidable guards (no line ends in CR, front-matter closed, languages without backtick/brace/white space, generated texts end in LF and do not start with a comment line); that generate_testcase produces such texts and that the real parser reads the same shell expressions from the re-tokenized code lines are decided by the direct oracles on the generated cases (and by C09), not proved",
 ]}
 
 GENERATE_TB = [
@@ -304,7 +304,7 @@ MANIFEST_TEXT = {
         "technique": "Lean 4 theorems composing the machine-checked component models (escaper, decoder, grammar, line parser, matcher, verdict) over an executable model of the generators + byte-for-byte differential correspondence of the generated document + end-to-end generate/parse/validate oracle",
     },
     "C10": {
-        "text": "Machine-checked (Lean 4) for all documents, malformed included, all language lists and all generated texts: without outcomes the document is returned byte for byte (C10_no_outcomes_untouched); update never panics and fails only for a missing or unrenderable outcome (C10_fails_only_for_outcomes); the updated text arises from the lines of the document by the rules of the relation Rewritten: every line outside scrut blocks (prose, front-matter, foreign blocks, unterminated constructs, everything after the last test) is written back as it is, in order, LF-terminated, nothing dropped or truncated, every scrut block replaced by exactly one closed block (C10_outside_preserved; strict form under the guard 'every front-matter is closed': C10_outside_preserved_partial); a rewritten block keeps language, inline configuration (white space after `{` dropped, white space only = none) and the comment lines, a block without code keeps all lines and uses no outcome (C10_blocks_kept); a block rewritten from its own code lines is reproduced line for line (C10_passing_verbatim); a second update that reads back the same texts and gets the same generated texts writes the same document (C10_idempotent_partial). PARTIAL: deviations proved on closed witnesses and reported by the oracle (open findings): an unterminated front-matter gains `---` (C10_front_matter_unterminated_fails_on_witness), `\\r\\r\\n` loses one CR per update (C10_not_idempotent_stray_cr_witness); two steps of the re-tokenization of the updated document are proved (C10_lines_read_back, C10_fence_line_read_back), running the tokenizer over the rewritten segments and 'same commands' are decided by oracles only. Tie to code: exhaustive documents up to 4 lines over a 12-line branch alphabet x outcome lists, random malformed documents with all line-ending styles, generated well-formed documents with real parse/validate; the model reproduces the whole updated document byte for byte.",
+        "text": "Machine-checked (Lean 4) for all documents, malformed included, all language lists and all generated texts: without outcomes the document is returned byte for byte (C10_no_outcomes_untouched); update never panics and fails only for a missing or unrenderable outcome (C10_fails_only_for_outcomes); the updated text arises from the lines of the document by the rules of the relation Rewritten: every line outside scrut blocks (prose, front-matter, foreign blocks, unterminated constructs, everything after the last test) is written back as it is, in order, LF-terminated, nothing dropped or truncated, every scrut block replaced by exactly one closed block (C10_outside_preserved; strict form under the guard 'every front-matter is closed': C10_outside_preserved_partial); a rewritten block keeps language, inline configuration (white space after `{` dropped, white space only = none) and the comment lines, a block without code keeps all lines and uses no outcome (C10_blocks_kept); a block rewritten from its own code lines is reproduced line for line (C10_passing_verbatim); the updated document is tokenized into the same tokens in the same order - same texts outside scrut blocks, per block the same language, configuration and comment lines, code lines = the lines of the generated text (C10_same_commands, relation Reread) - and a second update with the same generated texts writes the same document: update (update doc gens) gens = update doc gens (C10_idempotent); both under decidable guards: no line ends in a carriage return, every front-matter is closed, test languages hold no backtick / `{` / white space, generated texts end in LF and do not start with a comment line (necessary: C10_idempotent_needs_GenOK); that no line of a generated text starts with the fence chosen by max_backtick_size+1 is proved, not assumed (C10_fence_safe); read-back steps C10_lines_read_back, C10_fence_line_read_back, token-level core C10_idempotent_partial. PARTIAL: the guards exclude exactly the open findings, proved on closed witnesses and reported by the oracle: an unterminated front-matter gains `---` (C10_front_matter_unterminated_fails_on_witness), `\\r\\r\\n` loses one CR per update (C10_not_idempotent_stray_cr_witness); idempotence of the whole `scrut update` run additionally needs the second run to produce the same outcomes, which fails for retained quantified expectations (open finding, C09); that the real parser reads the same shell expressions from the re-tokenized code lines is decided by the re-parse oracle only. Tie to code: exhaustive documents up to 4 lines over a 12-line branch alphabet x outcome lists, random malformed documents with all line-ending styles, generated well-formed documents with real parse/validate; the model reproduces the whole updated document byte for byte.",
         "design_ref": "DESIGN.md §6 C10",
         "note": "Trusted: Lean kernel + 3 standard axioms, the correspondence harness, statement reading. generate_testcase is a parameter (C09). Open finding C10:not-idempotent-retained-quantified-expectations (same root cause as C09:update-retained-quantified-expectations). Line terminators are normalised to LF and a final terminator is added (stated normalisation). Repaired by fix: 41f3a85, 7028fbe, 9832a4c and cdbfbca (empty front-matter gained a blank line; `{  }` became `{}` and then disappeared - found by this check, regression examples C10_front_matter_empty_kept, C10_blank_config_idempotent).",
         "technique": "Lean 4 theorems on an executable model of generate_update over the C06 tokenizer model + differential correspondence (exhaustive small scope, random malformed, generated well-formed) + direct oracles",
